@@ -25,6 +25,7 @@ VERIF = os.path.dirname(os.path.abspath(__file__))
 sys.path.insert(0, os.path.join(VERIF, "tools"))
 import vx  # noqa: E402
 import kx  # noqa: E402
+import static_checks  # noqa: E402
 
 REPO = vx.REPO
 CACHE = os.path.join(VERIF, ".cache")
@@ -170,7 +171,7 @@ def main():
                 inconclusive.append("verus unit %s: a specification lemma failed (not a code obligation): %s | %s"
                                     % (n, orphan[0]["msg"], orphan[0]["source"]))
             for it in r["items"]:
-                if it["kind"] != "code":
+                if it["kind"] not in ("code", "corollary"):
                     continue
                 m = re.search(r"\bfn\s+(\w+)\s*$", it["item"])
                 if not m:
@@ -197,6 +198,8 @@ def main():
             solver_ms += int(h.get("time_s", 0) * 1000)
         for t in kres["trusted"]:
             trusted.add("kani: " + t)
+        for so in static_checks.for_property(prop):
+            obligations.append(so)
         if kres.get("cmd"):
             cmds.append(kres["cmd"])
     except vx.Inconclusive as e:
@@ -330,8 +333,8 @@ def witness_search(prop, o):
     """Time-boxed search for a concrete failing input on the real crate.  It
     only attaches an input to an already failed obligation; it decides nothing."""
     try:
-        import replay
-        return replay.search(prop, o)
+        import replay_search
+        return replay_search.search(prop, o)
     except Exception as e:  # noqa: BLE001
         return {"input_found": False, "note": "witness search unavailable: %s" % e}
 
